@@ -248,19 +248,35 @@ Definition out_okb (ms : list pmap) (start : list N) (out : list entry) : bool :
   && forallb (fun s => memN s (map fst out)) start
   && entries_okb ms out.
 
+(** Full property on a well-formed history: no cycle error, the list is accepted by
+    [out_okb], NO commit is listed twice, and (when every reachable commit is recorded by
+    some operation) every entry is attributed to an operation. *)
 Definition okb (c : case) : bool :=
   negb (c_panicked c) &&
   (let ms := some_prefix (c_ops c) in
    if wfb ms
    then match c_cycle c with
         | None => out_okb ms (c_start c) (c_out c)
+                  && nodupb (map fst (c_out c))
                   && (if closedb ms (c_start c) then forallb tagged (c_out c) else true)
         | Some _ => false
         end
    else true).
 
+(** Known-finding class F6 (see Props/C46.v [C46_once_refuted]): a well-formed history in
+    which some reachable commit is recorded by no operation (imported from Git, or created
+    before predecessor records existed) and is reached along two paths; [flush_commits]
+    lists it once per path.  Everything else about the list is still required to hold. *)
+Definition known_class (c : case) : bool :=
+  let ms := some_prefix (c_ops c) in
+  negb (c_panicked c) && wfb ms && negb (closedb ms (c_start c))
+  && match c_cycle c with
+     | None => out_okb ms (c_start c) (c_out c) && negb (nodupb (map fst (c_out c)))
+     | Some _ => false
+     end.
+
 Definition check_case (c : case) : N :=
   let r := walk_predecessors (c_ops c) (c_start c) in
   let corr := list_eqb entry_eqb (fst r) (c_out c) && status_eqb (snd r) (c_cycle c)
               && negb (c_panicked c) in
-  verdict corr (okb c) false 1.
+  verdict corr (okb c) (corr && known_class c) 1.
